@@ -650,7 +650,8 @@ def main(argv):
             "samples": samples[:60],
             "stage": {k: stage_info.get(k) for k in ("r2_sites", "r1_loops")},
             "unverified_surroundings": meta.get("unverified", []),
-            "known_findings_reported": sorted(set("%s: %s" % (sid, k["text"]) for sid, k in known_hits)),
+            "known_findings_reported": sorted(set("%s: %s" % (sid, k["text"]) for sid, k in known_hits if k["property"] == pid)),
+            "known_findings_of_other_properties": sorted(set("%s: property=%s %s" % (sid, k["property"], k["text"]) for sid, k in known_hits if k["property"] != pid)),
             "known_finding_obligations": known_total,
             "undecided": undecided,
             "explanation": ("Counts under obligations/discharged are CBMC properties of the unbounded modular (U) and loop-free (L) sets only; "
@@ -680,7 +681,9 @@ def main(argv):
         ok = sum(1 for o in r["obligations"] if o["status"] == "SUCCESS")
         print("set %-22s %s %4d/%-4d obligations discharged  %6.1fs  %s" % (s["id"], s["mode"], ok, n, r.get("solver_time_s", 0) + r.get("build_time_s", 0),
                                                                          ("UNDECIDED: " + r["undecided"][:300]) if r["undecided"] else ""))
-    for sid, k in sorted(set((sid, k["text"]) for sid, k in known_hits)):
+    # a finding is reported by the check of the property it is listed under; in the run of a sibling property of the same set its
+    # obligations are left out of the counts (evidence: known_findings_of_other_properties) and nothing is printed
+    for sid, k in sorted(set((sid, k["text"]) for sid, k in known_hits if k["property"] == pid)):
         print("KNOWN-FINDING: property=%s %s [%s]" % (pid, k, sid))
     if violations:
         for s, ob, path, note in violations:
